@@ -42,6 +42,10 @@ fn main() {
         println!("ticks: {}", out.ticks);
         return;
     }
+    if cmd == "c15-calib" {
+        props::c15::calibrate();
+        return;
+    }
     if cmd == "c12-dist" {
         props::c12::distribution();
         return;
